@@ -458,6 +458,9 @@ def reusable(check, prog):
                           for e in bad])
     seeded_subset(check, prog)
     c07.subset(check, prog)
+    # ... and what a result stores can be read back: dimension names stay str
+    from . import c16
+    c16.dimension_names(check, prog)
 
 
 # ----------------------------------------------------------------------
